@@ -124,6 +124,49 @@ CHECKS = {
             "entries ignored and positions = w x NLV / execution price.",
             "bool indices excluded (gymnasium accepts them).",
             "DESIGN 4/C17"),
+    "C02": ("exploration",
+            "non-interference by exhaustive enumeration of streams grouped into prefix-equivalence classes; tabular API by exhaustive perturbation patterns of later rows",
+            "Core API: for every setting (latency x delay x fold x history mode x script x {library features + recording feature, windowed State}) EVERY stream of "
+            "4 (quick) / 5 (thorough) bars x 2 contracts x 2 prices per bar, with and without one extra quote/custom event at each latency-boundary position, is "
+            "executed once; the cumulative outputs at each step are filed under the events stamped <= t (and the next execution's trades under events stamped "
+            "<= t+latency): a class holding two different outputs is a violation. Tabular API: transformer x window x fit date x cut date x patterns "
+            "{keep, replace, NaN} on the following rows of X and Y, appended rows, truncation: trace up to the cut bit-identical.",
+            "Library features, a recording feature and State only; all streams keep a quote at every grid point; done excluded.",
+            "DESIGN 4/C02"),
+    "C07": ("exploration",
+            "bounded-exhaustive complete episodes (all action sequences) replayed into an independent ledger fed only by the track record and quote history",
+            "3 contract mixes (ETF + user margined, multiplier-4 spot + ES-like, ETF + ES chain across a roll) x latency {0,30s} x delay {0,1} x 4 rewards x "
+            "{frictionless, spread+fees+markup+changing rate path} x ALL 3^(bars-1) action sequences: one entry per decision, strictly increasing stamps equal to "
+            "the latest event processed before the execution, recorded pre/post NLV, holdings, weights, margins reproduced by replaying recorded trades and "
+            "interest against the exchange's quote history, reporting frames equal the entries, each reward equals its stated function, simple returns compound "
+            "to final/initial NLV when nothing accrues.",
+            "Commission and interest amounts themselves are C01's and C06's subject.",
+            "DESIGN 4/C07"),
+    "C11": ("exploration",
+            "region enumeration of the piecewise-constant lead resolution (every breakpoint, both sides, one interior point) + bounded-exhaustive roll episodes on the real TradingEnv",
+            "Lead: 8 classes x start years x spans x month offsets 0-2, every last-trading instant L, L-1s, L+1s, interval midpoints, also through the shared clock "
+            "(symbol, Exchange[chain], allocation keys): earliest last-trading date strictly later than now, never past it, monotone. Roll: ES/VX (quick) + NK/ZN "
+            "(thorough) chains x strides 1-5 business days x every phase x periodic action scripts over {+w,-w,0,w+small} x spread x threshold: after every "
+            "rebalance every non-lead contract is flat, the lead position matches the target at prevailing quotes, nothing is held at or after expiry.",
+            "Grids with no step in [last trading, expiry) of a held contract are outside the statement's proviso (skipped, counted). Latency 0.",
+            "DESIGN 4/C11"),
+    "C16": ("exploration",
+            "small-scope exhaustive enumeration of level series against a pure-Python reference; every single-defect corruption",
+            "ALL level series of length 2..4 (quick) / 5 (thorough) over a 6-value alphabet x 5 index shapes (daily, weekend gap, intraday collapsing to daily, "
+            "month gaps, mixed): 12 scalar metrics with/without risk-free, returns/log-returns/drawdown series, DataFrame columns, risk-free level series, "
+            "tracking error, scalings; every NaN/zero/negative/duplicate-stamp/swapped-stamp/non-datetime-index corruption rejected by every metric; "
+            "TrackRecord.tearsheet rows.",
+            "Small scope only: arbitrary real values and long series are outside any bounded enumeration. Undefined ratios (zero denominator) only required non-finite.",
+            "DESIGN 4/C16"),
+    "C18": ("exploration",
+            "deviation-bounded enumeration of table shapes and TradingEnvXY settings, every reset/step compared with the published tables",
+            "window x stride fully crossed, times every assignment of table shapes (holiday row, weekend row, feature index earlier/later/sparse/extra, NaN "
+            "patterns), assets, transformer, clip, spread, rate, start/end bounds, folds, delay within a deviation bound (2 quick / 3 thorough), windows up to 30 "
+            "on a 70-day table: observation = last window rows (stride from the newest) of env.X dated <= now with declared shape/bounds/clip, quotes = env.Y "
+            "price widened by the spread, given rate, steps only on non-holiday dates of the price table after a full window exists; env.X re-derived "
+            "independently for transformer=None.",
+            "Constructor refusals are not violations; NYSE holiday table from pandas_market_calendars (memoised).",
+            "DESIGN 4/C18"),
 }
 
 ALL = ["C%02d" % i for i in range(1, 20)]
